@@ -109,3 +109,7 @@ package measurement
 //@     invariant 0 <= $i && $i <= len(ts) - 1 && minType != nil
 //@     invariant exists i int :: 0 <= i && i < len(ts) && minType == ts[i]
 //@     invariant forall i int :: 0 <= i && i < len(ts) ==> ts[i] != nil
+
+// Percentage: the ratio that is formatted is a magnitude (never negative, never NaN from a negative zero path).
+//@ func Percentage arith bv
+//@   callsite Sprintf magnitude: !(ratio < 0.0)
